@@ -80,6 +80,10 @@ Definition lnegotiate_hb (cfg : lcfg) (req : N) : N :=
   else if l_keepalive cfg <? req then l_keepalive cfg
   else req.
 
+(* narwhal_modulator::init_modulator: the size limit the server goes on to run with, given its own configured limit and
+   the one the modulator's S2M_CONNECT_ACK advertises *)
+Definition adjust_limit (configured advertised : N) : N := N.min advertised configured.
+
 Definition secret_ok (cfg : lcfg) (m : msg) : bool :=
   match l_secret cfg with
   | [] => true
